@@ -614,7 +614,7 @@ def check_accounting(ctx: Ctx) -> None:
                 augs: set = set()
                 for first in (True, False):
                     fa = facts.first_atom(first)
-                    dec = Decider(prog, lambda leaf, _al, fa=fa: fa(leaf), value_leaf=value_leaf)
+                    dec = Decider(prog, lambda leaf, _al, fa=fa: fa(leaf), value_leaf=value_leaf, track_aug=False)
                     vals: set = set()
                     for end, env, benv, outs in dec.walk(sw, flow.cfg.entry, lambda x, n=n: x is n, al):
                         if end is not n:
